@@ -8,6 +8,8 @@ import Tmcg.Model.TmcgCard
 import Tmcg.Model.Sigma
 import Tmcg.Model.Codec
 import Tmcg.Model.StackEq
+import Tmcg.Model.GroupCheck
+import Tmcg.Model.Aio
 /-
   Line-protocol driver (DESIGN.md §2.2): reads the implementation's trace on stdin,
   `<op> <inputs…> => <outputs…>`, recomputes the outputs with the model and prints
@@ -149,6 +151,20 @@ def hJacobi : Handler
 
 /-! #### VTMF cards (C01) and common key (C08) -/
 
+def hexOfStringV (s : String) : String :=
+  String.ofList (s.toUTF8.toList.flatMap fun b => [Sigma.hexDigit (b.toNat / 16), Sigma.hexDigit (b.toNat % 16)])
+def pOracleV (s : String) : Option (List (String × Int)) := do
+  let l ← pList s
+  l.mapM fun e => match e.splitOn ":" with
+    | [q, a] => do let a ← pInt a; some (q, a)
+    | _ => none
+def withOracleV (log : List (String × Int)) (f : Sigma.Hash → String) : String :=
+  let mk (d : Int) : Sigma.Hash := fun q => match log.lookup (hexOfStringV q) with | some a => a | none => d
+  let a := f (mk (-1)); let b := f (mk (-2))
+  if a = b then a else "oracle-mismatch"
+def pKindV (s : String) : Sigma.Kind := if s = "qr" then .qr else .schnorr
+
+
 def showCard (c : Vtmf.Card) : String := s!"{c.c1} {c.c2}"
 
 /-- vtmf.open p q g w T priv [xs] [rs] [taps] [present] opener => h c1 c2 m type -/
@@ -162,23 +178,35 @@ def hVtmfOpen : Handler
       | .error e => toString e)
   | _ => none
 
-/-- vtmf.key p q g x0 [ops] => h nkeys [rets]
-    ops: `a:<fp>:<key>` accepted contribution (the proof was checked by the implementation,
-    C03/C05), `x:<fp>:<key>` refused contribution, `r:<fp>` removal request -/
+/-- vtmf.key kind p q g x0 [ops] [log] => h nkeys [rets]
+    ops: `u:<key>:<c>:<r>` a contribution (the model decides by the key-share verifier),
+    `m:<key>` a contribution whose proof is missing, `r:<key>` removal request for that key -/
 def hVtmfKey : Handler
-  | [p, q, g, x0, ops] => do
+  | [kind, p, q, g, x0, ops, log] => do
     let p ← pInt p; let q ← pInt q; let g ← pInt g; let x0 ← pInt x0; let ops ← pList ops
-    let ops ← ops.mapM fun op => match op.splitOn ":" with
-      | ["a", fp, key] => do let fp ← pInt fp; let key ← pInt key; some (Vtmf.KeyOp.accept fp key)
-      | ["x", _, _] => some Vtmf.KeyOp.refuse
-      | ["r", fp] => do let fp ← pInt fp; some (Vtmf.KeyOp.remove fp)
-      | _ => none
-    let r : Except Err String := do
-      let S0 ← Vtmf.mkState ⟨p, q, g⟩
-      let S ← Vtmf.generateKey S0 x0
-      let (S, rets) := Vtmf.runKeyOps S ops
-      pure s!"{S.h} {Vtmf.numberOfKeys S} {showList (rets.map fun b => if b then 1 else 0)}"
-    some (match r with | .ok s => s | .error e => toString e)
+    let log ← pOracleV log
+    some (withOracleV log fun H =>
+      let r : Except Err String := do
+        let S0 ← Vtmf.mkState ⟨p, q, g⟩
+        let S ← Vtmf.generateKey S0 x0
+        let (S, rets) ← ops.foldlM (fun (acc : Vtmf.State × List Nat) op =>
+          match op.splitOn ":" with
+          | ["u", key, c, r] =>
+            match pInt key, pInt c, pInt r with
+            | some key, some c, some r => do
+              let (S', ok) ← Sigma.updateKey H (pKindV kind) acc.1 key c r
+              pure (S', acc.2 ++ [if ok then 1 else 0])
+            | _, _, _ => .error .oob
+          | ["m", _] => pure (acc.1, acc.2 ++ [0])
+          | ["r", key] =>
+            match pInt key with
+            | some key =>
+              let (S', ok) := Vtmf.removeKey acc.1 (Sigma.fingerprint H key)
+              pure (S', acc.2 ++ [if ok then 1 else 0])
+            | none => .error .oob
+          | _ => .error .oob) (S, ([] : List Nat))
+        pure s!"{S.h} {Vtmf.numberOfKeys S} {showList rets}"
+      match r with | .ok s => s | .error e => toString e)
   | _ => none
 
 /-! #### stacks (C02) -/
@@ -525,6 +553,95 @@ def hStr62 : Handler
   | [v] => do let v ← pInt v; some (hexOfString (Codec.str62 v))
   | _ => none
 
+/-! #### point-to-point channels (C13) -/
+
+def hexOfBytes (b : List Nat) : String :=
+  if b.isEmpty then "-" else String.ofList (b.flatMap fun x => [Sigma.hexDigit (x / 16), Sigma.hexDigit (x % 16)])
+
+/-- `[a:b:c,…]` with hex fields -/
+def pHexTuples (s : String) : Option (List (List (List Nat))) := do
+  let l ← pList s
+  l.mapM fun e => (e.splitOn ":").mapM pHex
+
+/-- crypto oracles replayed from the logs of one trace line; `dflt` feeds unknown queries -/
+def mkCrypto (maclog veriflog enclog declog : List (List (List Nat))) (dflt : Nat) : Aio.Crypto where
+  mac := fun i => match maclog.find? (fun e => e.head? = some i) with
+    | some [_, t] => t
+    | _ => [dflt]
+  verify := fun i t => match veriflog.find? (fun e => e.take 2 = [i, t]) with
+    | some [_, _, r] => r = [0]
+    | _ => dflt = 1
+  encrypt := fun _ d => match enclog.find? (fun e => e.head? = some d) with
+    | some [_, o] => o
+    | _ => [dflt]
+  decrypt := fun _ d => match declog.find? (fun e => e.head? = some d) with
+    | some [_, o] => o
+    | _ => [dflt]
+
+def withCrypto (maclog veriflog enclog declog : List (List (List Nat))) (f : Aio.Crypto → String) : String :=
+  let a := f (mkCrypto maclog veriflog enclog declog 0)
+  let b := f (mkCrypto maclog veriflog enclog declog 1)
+  if a = b then a else "oracle-mismatch"
+
+/-- aio.send auth enc ivsent sqn calls m ivhex [maclog] [enclog] => ret ivsent' sqn' calls' wirehex -/
+def hAioSend : Handler
+  | [auth, enc, ivs, sqn, calls, m, iv, maclog, enclog] => do
+    let auth ← pNat auth; let enc ← pNat enc; let ivs ← pNat ivs; let sqn ← pNat sqn; let calls ← pNat calls
+    let m ← pInt m; let iv ← pHex iv; let maclog ← pHexTuples maclog; let enclog ← pHexTuples enclog
+    let cfg : Aio.Cfg := { auth := auth = 1, enc := enc = 1 }
+    some (withCrypto maclog [] enclog [] fun cr =>
+      match Aio.send cfg cr iv { ivSent := ivs = 1, sqn := sqn, calls := calls } m with
+      | none => "0"
+      | some (tx, w) => s!"1 {showBool tx.ivSent} {tx.sqn} {tx.calls} {hexOfBytes w}")
+  | _ => none
+
+def showParse : Aio.Parse → String
+  | .incomplete => "none"
+  | .delivered v => s!"value:{v}"
+  | .failed => "fail"
+
+/-- aio.recv auth enc n bufhex flag ivseen sqn calls pipehex [veriflog] [declog]
+      => bufhex' flag' ivseen' sqn' calls' pipehex' result -/
+def hAioRecv : Handler
+  | [auth, enc, n, buf, flag, ivseen, sqn, calls, pipe, veriflog, declog] => do
+    let auth ← pNat auth; let enc ← pNat enc; let n ← pNat n; let buf ← pHex buf; let flag ← pNat flag
+    let ivseen ← pNat ivseen; let sqn ← pNat sqn; let calls ← pNat calls; let pipe ← pHex pipe
+    let veriflog ← pHexTuples veriflog; let declog ← pHexTuples declog
+    let cfg : Aio.Cfg := { auth := auth = 1, enc := enc = 1 }
+    some (withCrypto [] veriflog [] declog fun cr =>
+      let rx : Aio.Rx := { buf := buf, flag := flag = 1, ivSeen := ivseen = 1, sqn := sqn, calls := calls }
+      let (rx', pipe', res) := Aio.receive cfg cr n rx pipe
+      s!"{hexOfBytes rx'.buf} {showBool rx'.flag} {showBool rx'.ivSeen} {rx'.sqn} {rx'.calls} {hexOfBytes pipe'} {showParse res}")
+  | _ => none
+
+/-! #### group validation (C06) -/
+
+def pCls (c : String) (canonical : Bool) (esize : Nat) : Option GroupCheck.Cls :=
+  match c with
+  | "D" => some (.D canonical) | "QR" => some (.QR esize) | "P" => some .P | "PT" => some .PT
+  | "G" => some .G | "R" => some (.R canonical) | "PVSS" => some .PVSS | "NP" => some .NP
+  | _ => none
+
+/-- grp.check cls fsize gsize canonical esize p q k g h [gs] pp qp [log] => 0/1
+    `pp`, `qp`: answers of the probable-prime oracle for p and q -/
+def hGrpCheck : Handler
+  | [cls, fs, gsz, can, es, p, q, k, g, h, gs, pp, qp, log] => do
+    let fs ← pNat fs; let gsz ← pNat gsz; let can ← pNat can; let es ← pNat es
+    let p ← pInt p; let q ← pInt q; let k ← pInt k; let g ← pInt g; let h ← pInt h
+    let gs ← pIntList gs; let pp ← pNat pp; let qp ← pNat qp; let log ← pOracle log
+    let cls ← pCls cls (can = 1) es
+    let prime : Int → Bool := fun x => if x = p then pp = 1 else if x = q then qp = 1 else false
+    some (withOracle log fun H =>
+      showEB (GroupCheck.checkGroup cls fs gsz prime H (log.length + 1) ⟨p, q, k, g, h, gs⟩))
+  | _ => none
+
+/-- grp.elem qr p q a => 0/1 -/
+def hGrpElem : Handler
+  | [qr, p, q, a] => do
+    let qr ← pNat qr; let p ← pInt p; let q ← pInt q; let a ← pInt a
+    some (showEB (GroupCheck.checkElement (qr = 1) p q a))
+  | _ => none
+
 /-! #### text codecs (C11, C12) -/
 
 /-- io.card.import hextext => c1 c2 | reject -/
@@ -578,6 +695,8 @@ def hRoundtrip : Handler
   | _ => some "1"
 
 def handlers : List (String × Handler) := [
+  ("aio.send", hAioSend), ("aio.recv", hAioRecv),
+  ("grp.check", hGrpCheck), ("grp.elem", hGrpElem),
   ("io.card.import", hCardImport), ("io.secret.import", hSecretImport),
   ("io.stack.import", hStackImport), ("io.sts.import", hStsImport),
   ("io.card.export", hCardExport), ("io.stack.export", hStackExport), ("io.sts.export", hStsExport),
@@ -614,7 +733,9 @@ def processLine (line : String) : String :=
           | some t => if t.startsWith "tag:" then args0.dropLast else args0
           | none => args0
         match handlers.lookup op with
-        | none => lhs ++ " => unknown-op"
+        | none =>
+          -- `prop.*` lines carry whole-scenario facts for the direct property predicates only
+          if op.startsWith "prop." then line else lhs ++ " => unknown-op"
         | some h =>
           match h args with
           | none => lhs ++ " => bad-line"
